@@ -1,4 +1,5 @@
 import Echse.Model.RrStrm
+import Echse.Model.RrText
 import Driver.Util
 import Driver.Rrule
 open Echse.Rrule Echse.Instant
@@ -62,5 +63,43 @@ def runRrStrm (args : List String) : String :=
       | none => "unmodelled"
     | _, _ => "bad-op"
   | _ => "bad-op"
+
+/-- the harness's `print_rule` -/
+def showRule (r : Rule) : String :=
+  s!"freq={r.freq} scale={r.scale} count={r.count} inter={r.inter} until={toHex16 r.untl.pack} shift={r.shift}" ++
+  s!" dom={showList r.dom} doy={showList r.doy} dow={showList r.dow} mon={showList r.mon} wk={showList r.wk}" ++
+  s!" H={showList r.H} M={showList r.M} S={showList r.S} pos={showList r.pos} easter={showList r.easter}"
+
+def unhexChars : List Char → Option (List Char)
+  | a :: b :: r => do
+    let x ← hexDigit? a; let y ← hexDigit? b; let t ← unhexChars r
+    pure (Char.ofNat (x * 16 + y) :: t)
+  | [] => some []
+  | _ => none
+
+def hexChars (l : List Char) : String :=
+  String.ofList (l.flatMap fun c => [hexChar (c.toNat / 16 % 16), hexChar (c.toNat % 16)])
+
+/-- `r.parse HEX(rule text)` -/
+def runRrParse (args : List String) : String :=
+  match args with
+  | hex :: _ =>
+    match unhexChars hex.toList with
+    | some cs => showRule (Echse.RrText.snarfRrule (String.ofList cs))
+    | none => "bad-op"
+  | _ => "bad-op"
+
+/-- `r.print RULE-TOKENS | ccnt=N exc=0/1` -/
+def runRrPrint (args : List String) : String :=
+  let (rule, rest) := match splitBars args with
+    | [rule] => (rule, [])
+    | [rule, rest] => (rule, rest)
+    | _ => ([], ["bad"])
+  if rest = ["bad"] then "bad-op" else
+  let ccnt := (rest.findSome? fun t => if t.startsWith "ccnt=" then (t.drop 5).toString.toNat? else none).getD 0
+  let exc := (rest.findSome? fun t => if t.startsWith "exc=" then (t.drop 4).toString.toNat? else none).getD 0
+  match parseRule rule with
+  | some r => hexChars (Echse.RrText.sendRrul r ccnt (exc != 0)).toList
+  | none => "bad-op"
 
 end Driver
